@@ -5,6 +5,7 @@ import NanoVerif.Model.Palette
 import NanoVerif.Model.ViewBox
 import NanoVerif.Model.ClipBox
 import NanoVerif.Model.PaintTree
+import NanoVerif.Model.Bitmap
 /-
 Correspondence driver.  One JSON object per input line: {"op": ..., ...}; one JSON object per
 output line.  Run: `lake env lean --run Driver.lean < ops.jsonl`.
@@ -97,8 +98,40 @@ partial def getTree (j : Json) : Except String PTree := do
   let kids ← (← getArr (← field j "kids")).mapM getTree
   return .node t kids
 
+def bErr : BErr → String
+  | .assertFail => "AssertionError"
+  | .valueError => "ValueError"
+  | .zeroDiv => "ZeroDivisionError"
+
+def getBConfig (j : Json) : Except String BConfig := do
+  return ⟨← getInt (← field j "upem"), ← getInt (← field j "width"), ← getInt (← field j "ascender"),
+          ← getInt (← field j "descender"), ← getInt (← field j "bitmap_resolution")⟩
+
 def dispatch (op : String) (j : Json) : Except String Json := do
   match op with
+  | "nudge" =>
+      return obj [("r", jI (nudge (← getInt (← field j "lo")) (← getInt (← field j "hi")) (← getInt (← field j "v")) (← getInt (← field j "m"))))]
+  | "bitmap" =>
+      let c ← getBConfig (← field j "config")
+      let w ← getInt (← field j "w")
+      let h ← getInt (← field j "h")
+      let pp := ppem c h
+      let wp := widthInPixels c w h
+      let m := match pp with
+        | .ok p => bitmapMetrics c w h p
+        | .error e => .error e
+      let jr (r : Except BErr Int) : Json := match r with | .ok v => jI v | .error e => obj [("err", Json.str (bErr e))]
+      let jm : Json := match m with
+        | .ok v => Json.arr #[jI v.xOffset, jI v.yOffset, jI v.lineHeight, jI v.lineAscent]
+        | .error e => obj [("err", Json.str (bErr e))]
+      return obj [("ppem", jr pp), ("width_px", jr wp), ("metrics", jm)]
+  | "runs" =>
+      let g ← getNats (← field j "gids")
+      return obj [("r", Json.arr ((runs g).map fun r => Json.arr (r.map fun n => Json.str (toString n)).toArray).toArray)]
+  | "offsets" =>
+      let l ← getNats (← field j "lens")
+      let o ← getNat (← field j "off")
+      return obj [("r", Json.arr ((offsets o l).map fun (a, b) => Json.arr #[Json.str (toString a), Json.str (toString b)]).toArray)]
   | "tree-glyphs" =>
       let t ← getTree (← field j "tree")
       let l := t.glyphs Aff.id
